@@ -364,7 +364,7 @@ func gen(out *vc.Out, r *vc.Rand, thorough bool) {
 		emit(out, "", fmt.Sprintf("cst a %d %d th %d %s s %d %s rep 1 %s", r.Intn(3)*r.Intn(5000), r.Intn(2)*r.Intn(5000), n, strings.Join(kinds, " "), l, strings.TrimSpace(joinInts(sc)), ms()))
 	}
 
-	// bat: histories of Close / late attach (each side attached only while its field is empty), always
+	// bat: histories of Close / late or duplicate attach (a source is re-attached only while its field is empty), always
 	// ended by the last Close; every history of length ≤ 4 over {c, t, s, ct, cs, cc}, then longer random ones
 	batOps := []string{"c", "t", "s", "ct", "cs", "cc"}
 	var batHist func(prefix []string, srcSet, tgtSet bool, depth int)
@@ -382,20 +382,14 @@ func gen(out *vc.Out, r *vc.Rand, thorough bool) {
 			case "c", "cc":
 				s2, t2 = false, false
 			case "t":
-				if tgtSet {
-					continue
-				}
-				t2 = true
+				t2 = true // a duplicate target attach is turned away and closed by the setter
 			case "s":
 				if srcSet {
 					continue
 				}
 				s2 = true
 			case "ct":
-				if tgtSet {
-					continue
-				}
-				s2, t2 = false, true // the attach may land after the racing Close
+				s2, t2 = false, true // the attach may land before the racing Close tears down
 			case "cs":
 				if srcSet {
 					continue
